@@ -76,4 +76,5 @@ func C01(c *core.Ctx) {
 	// B-ERR instance: format.Source in Sources
 	a := engb.New(c.Prog)
 	ruleBErr(c, a, func(s *engb.ErrSite) bool { return s.Callee == "go/format.Source" })
+	ruleImportSet(c)
 }
